@@ -22,7 +22,7 @@ from . import _trees as T
 TIERS = {
     # trees in the main pool, trees in the leading>=2 pool, max nesting depth, sampled widths beyond smin+12
     "quick": {"main": 1000, "leading": 50, "ratio0": 50, "depth": 3, "extra": 7, "chunk": 10},
-    "thorough": {"main": 30000, "leading": 1500, "ratio0": 1500, "depth": 4, "extra": 12, "chunk": 50},
+    "thorough": {"main": 24000, "leading": 1000, "ratio0": 1000, "depth": 4, "extra": 12, "chunk": 50},
 }
 CASE_SECONDS = 5.0
 CLAUSE = {"main": "c01.width_bound", "leading": "c01.width_bound.leading_ge_2", "ratio0": "c01.width_bound.ratio_0"}
